@@ -44,7 +44,9 @@ func TokenOf(s string) string {
 }
 
 var regWords = []string{"alpha", "be ta", "x: y", `q"uo'te`, "ünï", "日本", "a:b", ":", "tab\tbed", "-", "(p)", "[b]", "w",
-	"end.", "a\nb", "<nil>", "\\n", "%d", "%s", "100%", "%!v(BAD)", "é́", "{x}", "a=b", "--", "c\nd e", "nil"}
+	"end.", "a\nb", "<nil>", "\\n", "%d", "%s", "100%", "%!v(BAD)", "é́", "{x}", "a=b", "--", "c\nd e", "nil",
+	// runes whose UTF-8 encoding is next to that of the redaction markers (E2 80 B9 / E2 80 BA): legal text
+	"‸", "※", "x—y…", "a‸b※c"}
 
 // Regular strings: non-empty valid UTF-8, no redaction markers, every
 // newline interior and isolated. Always carries a token.
@@ -292,4 +294,113 @@ func (g *Gen) Sweep(i int) *Node {
 	}
 	leaf := g.Make(LeafKinds[li], nil, nil)
 	return g.Around(outer, g.Around(inner, leaf))
+}
+
+// ExtremeShapes names the shapes Extreme produces (evidence / coverage).
+var ExtremeShapes = []string{"deep-chain", "wide-multi", "long-message", "same-value-twice", "deep-multi-spine"}
+
+// Extreme generates a tree of an extreme but legal shape — sizes that hand-written tests
+// do not use and that the depth-bounded Tree never reaches:
+//
+//	0 deep-chain        32..40 wrapper layers over a leaf, half of the time as a branch of a multi-cause node
+//	1 wide-multi        a multi-cause node with 9..12 causes (small sub-trees), under 0..2 wrappers
+//	2 long-message      a random tree in which one string is longer than 4 KiB
+//	3 same-value-twice  a multi-cause node that holds the SAME error value as two of its causes
+//	4 deep-multi-spine  6..8 nested two-cause nodes (rendering cost grows exponentially with this depth, so it stays small) (the second cause continues the spine)
+func (g *Gen) Extreme(which int) (*Node, string) {
+	r := g.R
+	which = ((which % len(ExtremeShapes)) + len(ExtremeShapes)) % len(ExtremeShapes)
+	wrap := func(t *Node) *Node {
+		if k := g.pick(WrapKinds); k != "" {
+			return g.Make(k, []*Node{t}, nil)
+		}
+		return t
+	}
+	multiKind := func() string {
+		for i := 0; i < 20; i++ {
+			if k := g.pick(MultiKinds); k != "" && k != "goerrorfmulti" {
+				return k
+			}
+		}
+		return ""
+	}
+	var t *Node
+	switch which {
+	case 0:
+		t = g.Leaf()
+		for i, d := 0, 32+r.Intn(9); i < d; i++ {
+			t = wrap(t)
+		}
+		if r.Intn(2) == 0 {
+			// ... as a branch of a multi-cause node: every layer of it is rendered nested by depth
+			if k := multiKind(); k != "" {
+				kids := []*Node{g.Leaf(), t}
+				if r.Intn(2) == 0 {
+					kids[0], kids[1] = kids[1], kids[0]
+				}
+				t = g.Make(k, kids, nil)
+			}
+		}
+	case 1:
+		k := multiKind()
+		if k == "" {
+			return g.Tree(3), "fallback"
+		}
+		var kids []*Node
+		for i, n := 0, 9+r.Intn(4); i < n; i++ {
+			kids = append(kids, g.Tree(1+r.Intn(2)))
+		}
+		t = g.Make(k, kids, nil)
+		for i, d := 0, r.Intn(3); i < d; i++ {
+			t = wrap(t)
+		}
+	case 2:
+		t = g.Tree(2 + r.Intn(4))
+		var cands []*Node
+		Walk(t, func(n *Node, _ bool) {
+			if len(n.S) > 0 {
+				cands = append(cands, n)
+			}
+		})
+		if len(cands) == 0 {
+			t = g.Make("new", nil, nil)
+			cands = []*Node{t}
+		}
+		n := cands[r.Intn(len(cands))]
+		j := r.Intn(len(n.S))
+		var b strings.Builder
+		b.WriteString(n.S[j])
+		if n.S[j] == "" {
+			b.WriteString("w")
+		}
+		for b.Len() < 4200+r.Intn(600) {
+			b.WriteString(" ")
+			b.WriteString(regWords[r.Intn(len(regWords))])
+		}
+		n.S[j] = b.String()
+	case 3:
+		k := multiKind()
+		if k == "" {
+			return g.Tree(3), "fallback"
+		}
+		x := g.Tree(1 + r.Intn(3))
+		kids := []*Node{x, x}
+		if r.Intn(2) == 0 {
+			kids = []*Node{x, g.Leaf(), x}
+		}
+		t = g.Make(k, kids, nil)
+		if r.Intn(2) == 0 {
+			t = wrap(t)
+		}
+	case 4:
+		t = g.Leaf()
+		for i, d := 0, 6+r.Intn(3); i < d; i++ {
+			k := multiKind()
+			if k == "" {
+				return g.Tree(3), "fallback"
+			}
+			t = g.Make(k, []*Node{g.Leaf(), t}, nil)
+		}
+	}
+	return t, ExtremeShapes[which]
 }
